@@ -186,6 +186,13 @@ func H_c13_session() {
 		emu.send('D', "N1CALL-1", "N0CALL", in2)
 	}
 	want := append(append([]byte(nil), in1...), in2...)
+	// the remote station may hang up right after its last frame: what it sent
+	// before is still delivered, then end of stream
+	hangup := symInt(0, 1) == 1
+	if hangup {
+		emu.send('d', "N1CALL-1", "N0CALL", []byte("*** DISCONNECTED From N1CALL-1\r"))
+		time.Sleep(100 * time.Millisecond) // the demultiplexer sees the disconnect before the application reads
+	}
 	bufsz := symInt(1, 4)
 	var got []byte
 	for len(got) < len(want) {
@@ -195,6 +202,16 @@ func H_c13_session() {
 		got = append(got, b[:n]...)
 	}
 	symAssert(bytes.Equal(got, want), "read-yields-exactly-this-connections-payloads-in-order")
+	if hangup {
+		b := make([]byte, bufsz)
+		n, err := conn.Read(b)
+		symAssert(n == 0 && err == io.EOF, "end-of-stream-after-the-remote-disconnect")
+		conn.Close()
+		symAssert(bytes.Equal(emu.dataIn, written), "tnc-received-the-written-bytes-in-order")
+		symAssert(emu.badFrame == "", "all-frames-well-formed (port, callsigns, pid, reserved bytes)")
+		symReach("end")
+		return
+	}
 	err = conn.Close()
 	symAssert(err == nil, "close-ok")
 	symAssert(bytes.Equal(emu.dataIn, written), "tnc-received-the-written-bytes-in-order")
